@@ -18,7 +18,7 @@ from __future__ import annotations
 import ast
 import re
 
-from ..astutil import dotted, src, walk_local, local_assignments, calls, dominating_guards, preceding_exit_guards, op_test, conjuncts
+from ..astutil import clone, dotted, src, walk_local, local_assignments, calls, dominating_guards, preceding_exit_guards, op_test, conjuncts
 from ..dispatch import dispatcher, operand_slots, exact_arm, binary_ops, unary_ops
 from ..logic import formula, And, Not, atom, TRUE, counterexample, implies
 from ..report import AnalysisError, Frag
@@ -28,10 +28,29 @@ CONTAINER_DEGREE = {"VectorSum": 1, "LinearCombination": 1, "DotProduct": 2, "Qu
 ANALYSERS = ("optyx.analysis:_compute_degree_impl", "optyx.analysis:_compute_degree_iterative")
 
 
+_BOOL_ENV: dict = {}
+
+
+class _BoolLocals(ast.NodeTransformer):
+    """A local bound once to a boolean test (`both_plain = isinstance(a, V) and isinstance(b, V)`) is read as its
+    definition when it occurs in a guard."""
+
+    def visit_Name(self, node):
+        vals = [v for v in _BOOL_ENV.get(node.id, []) if isinstance(v, ast.AST)]
+        if len(vals) == 1 and isinstance(vals[0], (ast.BoolOp, ast.Compare)) or (len(vals) == 1 and isinstance(vals[0], ast.Call) and dotted(vals[0].func) in ("isinstance", "hasattr")):
+            return self.visit(clone(vals[0]))
+        return node
+
+
+def _guard(t):
+    return _BoolLocals().visit(clone(t)) if _BOOL_ENV else t
+
+
 class Site:
     """One answer of an analyser: the value expression, where, and the guards on its path inside the arm."""
 
     def __init__(self, value, node, guards):
+        guards = [(_guard(t), pol) for t, pol in guards]
         self.value, self.node, self.guards = value, node, guards
         self.pf = And(*[(formula(t) if pol else Not(formula(t))) for t, pol in guards]) if guards else TRUE
 
@@ -57,7 +76,16 @@ def answer_sites(arm_body, arm_node):
             stmt = stmt._parent
         gs = [(t, p) for t, p in dominating_guards(stmt, stop=None) if _inside(t, arm_body)]
         gs += [(t, p) for t, p in preceding_exit_guards(stmt) if _inside(t, arm_body)]
-        out.append(Site(val, stmt, gs))
+
+        def emit(v, guards):
+            # `A if T else B` answers A under T and B under not T
+            if isinstance(v, ast.IfExp):
+                emit(v.body, guards + [(v.test, True)])
+                emit(v.orelse, guards + [(v.test, False)])
+            else:
+                out.append(Site(v, stmt, guards))
+
+        emit(val, gs)
     return out
 
 
@@ -204,6 +232,8 @@ def check_analyser(prog, rep, fi):
     d = dispatcher(prog, fi)
     fname = fi.name
     env = local_assignments(fi.node)
+    _BOOL_ENV.clear()
+    _BOOL_ENV.update(env)
     kinds = prog.expression_kinds()
     nobs = 0
     for k in kinds:
@@ -303,9 +333,29 @@ def _elements_loop_sound(arm, site=None, env=None):
     return False
 
 
+def _arm_sites(d, arm):
+    """Answer sites of a dispatch arm.  An arm whose test has further conjuncts (`isinstance(e, UnaryOp) and e.op ==
+    "neg"`) is partial: its sites carry those conjuncts as guards, and nodes of the kind that fail them fall to the
+    default arm, whose sites are added with the conjunction negated."""
+    sites = answer_sites(arm.body, arm.node)
+    extra = list(getattr(arm, "extra", []) or [])
+    if not extra:
+        return sites
+    for s in sites:
+        s.guards = [(g, True) for g in extra] + s.guards
+        s.pf = And(*[(formula(t) if pol else Not(formula(t))) for t, pol in s.guards])
+    if d.default:
+        neg = extra[0] if len(extra) == 1 else ast.BoolOp(op=ast.And(), values=extra)
+        for s in answer_sites(d.default, None):
+            s.guards = [(neg, False)] + s.guards
+            s.pf = And(*[(formula(t) if pol else Not(formula(t))) for t, pol in s.guards])
+            sites.append(s)
+    return sites
+
+
 def _check_binary(prog, rep, fi, d, arm, env):
     fname = fi.name
-    sites = answer_sites(arm.body, arm.node)
+    sites = _arm_sites(d, arm)
     ops = binary_ops(prog)
     for op in ops:
         mine = []
@@ -375,7 +425,7 @@ def _child_is(v, slot, env):
 
 def _check_unary(prog, rep, fi, d, arm, env):
     fname = fi.name
-    sites = answer_sites(arm.body, arm.node)
+    sites = _arm_sites(d, arm)
     for s in sites:
         pos, neg = op_of(s)
         form = classify(s.value, env)
@@ -393,6 +443,8 @@ def degree_forms(prog, fi, _other=None):
     """key -> canonical description of the finite answers, simplified by F2 (used for sibling agreement)."""
     d = dispatcher(prog, fi)
     env = local_assignments(fi.node)
+    _BOOL_ENV.clear()
+    _BOOL_ENV.update(env)
     out = {}
     for k in prog.expression_kinds():
         arm = d.handler(prog, k)
@@ -400,7 +452,7 @@ def degree_forms(prog, fi, _other=None):
             out[k] = "NONE"
             continue
         if k in ("BinaryOp", "UnaryOp"):
-            sites = answer_sites(arm.body, arm.node)
+            sites = _arm_sites(d, arm)
             ops = binary_ops(prog) if k == "BinaryOp" else ["neg", "sin"]
             for op in ops:
                 forms = set()
@@ -550,16 +602,78 @@ def check(prog, rep):
             return src(e2.args[0]) == "self" and isinstance(e2.args[1], ast.Constant) and e2.args[1].value == "_degree"
         return False
 
-    writes = [n for n in walk_local(deg.node) if isinstance(n, ast.Assign) and src(n.targets[0]) == "self._degree"]
-    w_ok = bool(writes) and all(isinstance(w.value, ast.IfExp) and isinstance(w.value.test, ast.Compare) and isinstance(w.value.test.ops[0], ast.IsNot) and src(w.value.test.comparators[0]) == "None"
-                                and src(w.value.test.left) == src(w.value.body) and src(w.value.orelse) == "-1" for w in writes)
-    reads = [n.value for n in walk_local(deg.node) if isinstance(n, ast.Return) and n.value is not None and any(is_cache_read(x) for x in ast.walk(n.value) if isinstance(x, (ast.Name, ast.Attribute, ast.Call)))]
-    r_ok = bool(reads) and all(isinstance(r, ast.IfExp) and src(r.body) == "None" and isinstance(r.test, ast.Compare) and isinstance(r.test.ops[0], ast.Eq) and src(r.test.comparators[0]) == "-1"
-                               and is_cache_read(r.test.left) and is_cache_read(r.orelse) for r in reads)
-    if not writes or not reads:
-        rep.undecided("Expression.degree: write / read-back of the per-node degree cache not found")
-    else:
-        rep.ob("R04.4", "Expression.degree", w_ok and r_ok, "per-node cache: -1 is written only for None and read back as None" if w_ok and r_ok else "the per-node degree cache does not map None <-> -1 consistently", loc=deg.loc, detail="sentinel")
+    # walked under four scenarios: cache holds the sentinel / a degree / nothing with result None / nothing with a result
+    from ..scenario import Explorer as _Ex
+
+    def walk_degree(cache_state, result_none):
+        """-> set of (stored value text | None, returned text) over the paths"""
+        def is_read(e):
+            return is_cache_read(e)
+
+        def atom_truth(t, state):
+            if isinstance(t, ast.Call) and dotted(t.func) == "hasattr" and len(t.args) == 2 and src(t.args[0]) == "self" and isinstance(t.args[1], ast.Constant) and t.args[1].value == "_degree":
+                return True if cache_state != "empty" else None
+            if isinstance(t, ast.Compare) and len(t.ops) == 1:
+                l, r, op = t.left, t.comparators[0], t.ops[0]
+                if isinstance(r, ast.UnaryOp) and isinstance(r.op, ast.USub) and isinstance(r.operand, ast.Constant) and isinstance(r.operand.value, (int, float)):
+                    r = ast.Constant(value=-r.operand.value)
+                if is_read(l) and isinstance(r, ast.Constant):
+                    if r.value is None:
+                        v = cache_state == "empty"
+                        return v if isinstance(op, (ast.Is, ast.Eq)) else (not v)
+                    if r.value == -1 and cache_state != "empty":
+                        v = cache_state == "sentinel"
+                        return v if isinstance(op, ast.Eq) else (not v) if isinstance(op, ast.NotEq) else None
+                    if r.value == 0 and cache_state != "empty" and isinstance(op, (ast.Lt, ast.GtE)):
+                        v = cache_state == "sentinel"           # -1 < 0
+                        return v if isinstance(op, ast.Lt) else (not v)
+                if isinstance(l, ast.Name) and l.id in state["result_names"] and isinstance(r, ast.Constant) and r.value is None:
+                    return result_none if isinstance(op, (ast.Is, ast.Eq)) else (not result_none)
+            return None
+
+        def pick(e, state):
+            # resolve conditional expressions with the scenario
+            if isinstance(e, ast.IfExp):
+                t_ = atom_truth(e.test, state)
+                if t_ is None:
+                    return src(e)
+                return pick(e.body if t_ else e.orelse, state)
+            return "<cache>" if is_read(e) else ("<result>" if isinstance(e, ast.Name) and e.id in state["result_names"] else src(e))
+
+        def on_stmt(st, state):
+            if isinstance(st, ast.Assign) and len(st.targets) == 1:
+                tg = st.targets[0]
+                if isinstance(tg, ast.Name) and isinstance(st.value, ast.Call) and (dotted(st.value.func) or "").endswith("compute_degree"):
+                    state["result_names"].add(tg.id)
+                if src(tg) == "self._degree":
+                    state["stored"] = pick(st.value, state)
+            if isinstance(st, ast.Return):
+                state["ret"] = pick(st.value, state) if st.value is not None else "None"
+
+        try:
+            paths = _Ex(atom_truth, on_stmt).explore(deg.node.body, {"result_names": set(), "stored": None, "ret": None})
+        except Exception:
+            return None
+        return {(s_["stored"], s_["ret"]) for s_, term in paths if isinstance(term, tuple)}
+
+    table = {
+        ("sentinel", None): ({(None, "None")}, "the cache holds -1: the answer must be None (non-polynomial), nothing is recomputed"),
+        ("degree", None): ({(None, "<cache>")}, "the cache holds a degree: it is returned as it is"),
+        ("empty", True): ({("-1", "None"), ("-1", "<result>")}, "nothing cached, the analysis says None: -1 is stored and None returned"),
+        ("empty", False): ({("<result>", "<result>")}, "nothing cached, the analysis gives a degree: it is stored and returned"),
+    }
+    bad = None
+    for (cs, rn), (want, what) in table.items():
+        got = walk_degree(cs, bool(rn))
+        if got is None or not got:
+            rep.undecided(f"Expression.degree: scenario '{what}' not interpretable")
+            bad = "undecided"
+            break
+        if not got <= want:
+            bad = f"{what}; the code does (stored, returned) = {sorted(map(str, got))[:2]}"
+            break
+    if bad != "undecided":
+        rep.ob("R04.4", "Expression.degree", bad is None, "per-node cache: -1 is written only for None and read back as None (4 scenarios walked)" if bad is None else f"the per-node degree cache does not map None <-> -1 consistently: {bad}", loc=deg.loc, detail="sentinel")
     uses_switch = any(dotted(c.func) == "compute_degree" for c in calls(deg.node))
     rep.pin("degree consumers", "R04.4", "Expression.degree", uses_switch, "the cached value comes from compute_degree (depth switch)" if uses_switch else "the cached degree is not computed by compute_degree", loc=deg.loc, detail="source")
     # every writer of the per-node cache: None (uninitialised), the leaf degree of the class itself, or the sentinel
@@ -576,7 +690,7 @@ def check(prog, rep):
                     if isinstance(t, ast.Attribute) and t.attr == "_degree":
                         nw += 1
                         v = n.value
-                        ok = (isinstance(v, ast.Constant) and v.value is None) or (isinstance(v, ast.Constant) and owner in leaf and v.value == leaf[owner] and dotted(t.value) == "self") or (f is deg and src(v) == "result if result is not None else -1")
+                        ok = (isinstance(v, ast.Constant) and v.value is None) or (isinstance(v, ast.Constant) and owner in leaf and v.value == leaf[owner] and dotted(t.value) == "self") or (f is deg)  # writes inside Expression.degree itself are decided by the sentinel scenarios above
                         rep.ob("R04.4", f"{f.qual.split(':')[1]}", ok,
                                f"degree cache written as {src(v)[:40]}" if ok else
                                f"writes the per-node degree cache as `{src(v)[:60]}` outside the degree analysis: cached values use -1 for 'non-polynomial', so e.g. max() over them turns sin(x) + x into degree 1",
